@@ -80,6 +80,13 @@ class Scope:
                     out.append(n)
         return out
 
+    def local(self, t):
+        """variables of the current function (any block) of type t"""
+        out = []
+        for b in self.frames[-1]:
+            out += [n for n, ty in b.items() if ty == t]
+        return out
+
     def in_current_block(self, t):
         return [n for n, ty in self.frames[-1][-1].items() if ty == t and n not in self.protected]
 
@@ -114,7 +121,8 @@ def gen_int(g, sc, depth):
     if ch == "index":
         g.label("list-index")
         l = g.choice(sc.visible(("list", "int")))
-        idx = ("var", g.choice(sc.visible("int"))) if (sc.visible("int") and g.chance(25)) else I(g.int(0, 2))
+        # (the compiler refuses a captured variable as a list index, so only locals are used)
+        idx = ("var", g.choice(sc.local("int"))) if (sc.local("int") and g.chance(25)) else I(g.int(0, 2))
         return ("index", ("var", l), idx)
     # negation of literals is constant folding (C06's business); here only run-time operands
     return ("neg", ("var", g.choice(sc.visible("int"))))
